@@ -241,6 +241,11 @@ class Program:
                         for tt, vv in zip(t.elts, st.value.elts):
                             if isinstance(tt, ast.Name):
                                 m.assigns.setdefault(tt.id, []).append(vv)
+                    elif isinstance(t, ast.Tuple):
+                        for i, tt in enumerate(t.elts):
+                            if isinstance(tt, ast.Name):  # NAME_i = (whole expression)[i]
+                                m.assigns.setdefault(tt.id, []).append(
+                                    ast.copy_location(ast.Subscript(st.value, ast.Constant(i), ast.Load()), st.value))
             elif isinstance(st, ast.AnnAssign) and isinstance(st.target, ast.Name):
                 m.annotations[st.target.id] = st.annotation
                 if st.value is not None:
